@@ -5,7 +5,8 @@
 (* where src is  "x"   the same input object again,                                               *)
 (*               "cur" the working object: the result of the previous call, possibly after the    *)
 (*                     caller derived a new object from it (Der: reindexed onto a longer calendar *)
-(*                     / back onto the full one, lagged, an observation withdrawn in place,       *)
+(*                     / back onto the full one, lagged, an observation withdrawn / arrived in    *)
+(*                     place,                                                                     *)
 (*                     sliced, copied, multiplied by one, its values put into a new object),      *)
 (*               "y"   ANOTHER input of the same length / shape (other NaN mask, other values),   *)
 (* and <<B, l2>> is the same method list with the same / another limit or another method list.    *)
@@ -31,16 +32,19 @@ CONSTANTS MaxLenP, MaxRowsP,       \* x: vectors of <= MaxLenP cells, 2-column f
           PokeColsP,               \* the columns of a 2-column frame in which an observation is withdrawn (0 = the whole row)
           MaxCallsP, MaxDerP, Memo, Emit
 
-VARIABLES x, y,              \* what the caller wrote: the first input; the second input (NoY until it is built)
+VARIABLES x0,                \* what the caller wrote into the first input object
+          x, y,              \* the contents of the first input object now (the caller may edit it in place between calls); the
+                             \* second input (NoY until it is built)
           cur,               \* law level: the contents the statement admits for the working object
           root,              \* "x" / "y": the input the working object descends from
-          own,               \* the working object is the caller's alone (not an input object handed back by an empty list)
+          own,               \* the working object is certainly the caller's alone (not an input object handed back)
           lastms, lastlim,   \* the arguments of the previous call
-          n, nd,             \* calls made; derivations since the last call
+          n, nd,             \* calls made; the caller's own actions since the last call
+          focus,             \* "" / "cur" / "x": the object the caller has worked on since the last call - the next call takes it
           tag, mech,         \* mechanism: the memo the working object carries; the contents it produces
           pend,              \* simulation only: the step the caller has decided on (NoPend in the breadth-first configurations)
           hist
-vars == <<x, y, cur, root, own, lastms, lastlim, n, nd, tag, mech, pend, hist>>
+vars == <<x0, x, y, cur, root, own, lastms, lastlim, n, nd, focus, tag, mech, pend, hist>>
 
 CodeX(j, i) == 100 * j + i
 CodeY(j, i) == 100 * j + 50 + i
@@ -67,12 +71,14 @@ DOf(kd, k, i, j) == [kind |-> kd, k |-> k, i |-> i, j |-> j]
 \* the caller's derivations: j = 0 withdraws row i of every column (one column: that is the cell)
 Ders == {DOf("extend", k, 0, 0) : k \in ExtendsP} \cup {DOf("calendar", k, 0, 0) : k \in CalendarsP}
         \cup {DOf(kd, 0, 0, 0) : kd \in {"lag", "head", "tail", "copy", "values", "arith"}}
-        \cup {DOf("poke", 0, i, j) : i \in 1..(NRows(x) + MaxDerP - 1), j \in (IF NCols(x) = 1 THEN {0} ELSE PokeColsP)}
+        \cup {DOf(kd, 0, i, j) : kd \in InPlaceKinds, i \in 1..(NRows(x) + MaxDerP - 1), j \in (IF NCols(x) = 1 THEN {0} ELSE PokeColsP)}
+\* the caller's edits of the input object x itself
+Edits == {DOf(kd, 0, i, j) : kd \in InPlaceKinds, i \in 1..NRows(x), j \in (IF NCols(x) = 1 THEN {0} ELSE PokeColsP)}
 NoPend == [a |-> "", src |-> "", y |-> NoY, ms |-> <<>>, lim |-> 0, d |-> NoD]
 SameRows(F) == \A f, g \in F : f.rows = g.rows
 
-Init == /\ x \in FramesP /\ y = NoY /\ cur = {} /\ root = "x" /\ own = FALSE /\ lastms = <<>> /\ lastlim = 0
-        /\ n = 0 /\ nd = 0 /\ tag = <<>> /\ mech = {} /\ pend = NoPend /\ hist = <<>>
+Init == /\ x0 \in FramesP /\ x = x0 /\ y = NoY /\ cur = {} /\ root = "x" /\ own = FALSE /\ lastms = <<>> /\ lastlim = 0
+        /\ n = 0 /\ nd = 0 /\ focus = "" /\ tag = <<>> /\ mech = {} /\ pend = NoPend /\ hist = <<>>
 
 \* what a later call may ask for: the same method list (any limit), another method list
 Asks == IF n = 0 THEN ListsP \X LimsP
@@ -91,74 +97,97 @@ MechCall(src, yy, ms, l) ==
 CallOK(src, yy, ms, l) ==
     /\ n < MaxCallsP
     /\ (n = 0) => src = "x"
-    /\ (nd > 0) => src = "cur"                 \* a derivation is made in order to be passed on
+    /\ (focus # "") => src = focus             \* a derivation / an edit is made in order to be passed on
     /\ IF src = "y" THEN (y # NoY => yy = y) ELSE yy = y            \* (yy is drawn from YFrames)
     /\ <<ms, l>> \in Asks
 CallDo(src, yy, ms, l) ==
-    /\ n' = n + 1 /\ nd' = 0
+    /\ n' = n + 1 /\ nd' = 0 /\ focus' = ""
     /\ cur' = UNION {Fillna(g, ms, l) : g \in Contents(src, yy)}              \* PLaw
     /\ root' = IF src = "cur" THEN root ELSE src
-    /\ own' = IF ms = <<>> THEN (src = "cur" /\ own) ELSE TRUE               \* the empty list returns its input object
+    \* a result whose contents differ from the (unmodified) input is a new object; one that equals it may be the input object
+    \* itself (the empty list, a column without observations under ffill_na: the input is handed back) - named deviation SameObject
+    /\ own' = IF cur' \cap Contents(src, yy) = {} THEN TRUE ELSE (src = "cur" /\ own)
     /\ lastms' = ms /\ lastlim' = l /\ y' = yy
     /\ MechCall(src, yy, ms, l)
-    /\ UNCHANGED x
+    /\ UNCHANGED <<x0, x>>
 Call(src, yy, ms, l) == CallOK(src, yy, ms, l) /\ CallDo(src, yy, ms, l) /\ UNCHANGED pend
 
 DerOK(d) ==
-    /\ n >= 1 /\ n < MaxCallsP /\ nd < MaxDerP
+    /\ n >= 1 /\ n < MaxCallsP /\ nd < MaxDerP /\ focus \in {"", "cur"}
     /\ SameRows(cur) /\ DeriveOK(d, cur)
-    /\ (d.kind = "poke") => own
+    /\ (d.kind \in InPlaceKinds) => own
 DerDo(d) ==
-    /\ nd' = nd + 1
-    /\ cur'  = {Derive(d, g, NRows(x)) : g \in cur}
-    /\ mech' = {Derive(d, g, NRows(x)) : g \in mech}
+    /\ nd' = nd + 1 /\ focus' = "cur"
+    /\ cur'  = {Derive(d, g, NRows(x0)) : g \in cur}
+    /\ mech' = {Derive(d, g, NRows(x0)) : g \in mech}
     /\ tag'  = IF d.kind = "values" THEN <<>> ELSE tag
     /\ own'  = TRUE
-    /\ UNCHANGED <<x, y, root, lastms, lastlim, n>>
+    /\ UNCHANGED <<x0, x, y, root, lastms, lastlim, n>>
 Der(d) == DerOK(d) /\ DerDo(d) /\ UNCHANGED pend
+
+\* the caller edits the input object x in place and calls on it again (the working object is not looked at before that call
+\* has replaced it: whether it is x itself - SameObject - and shows the edit plays no part)
+EditOK(d) == n >= 1 /\ n < MaxCallsP /\ nd < MaxDerP /\ focus \in {"", "x"} /\ DeriveOK(d, {x})
+EditDo(d) ==
+    /\ nd' = nd + 1 /\ focus' = "x"
+    /\ x' = Derive(d, x, NRows(x0))
+    /\ UNCHANGED <<x0, y, cur, mech, root, own, tag, lastms, lastlim, n>>
+Edit(d) == EditOK(d) /\ EditDo(d) /\ UNCHANGED pend
 
 Srcs == {"x", "y", "cur"}
 Step == \/ \E src \in Srcs :
               \E yy \in (IF src = "y" THEN YFrames ELSE {y}) : \E ms \in ListsP, l \in LimsP \cup OtherLimsP : Call(src, yy, ms, l)
         \/ \E d \in Ders : Der(d)
+        \/ \E d \in Edits : Edit(d)
 Next == Step /\ hist' = <<>>
 
-Entry(a, src, ms, l, d) == [a |-> a, src |-> src, ms |-> ms, lim |-> l, d |-> d, want |-> SetToSeq(cur')]
+\* want: the contents admitted for the object the step produced / edited (a call, a derivation: the working object; an edit: x)
+Entry(a, src, ms, l, d) == [a |-> a, src |-> src, ms |-> ms, lim |-> l, d |-> d, want |-> IF a = "edit" THEN <<x'>> ELSE SetToSeq(cur')]
 NextGen ==
     /\ \/ \E src \in Srcs :
              \E yy \in (IF src = "y" THEN YFrames ELSE {y}) : \E ms \in ListsP, l \in LimsP \cup OtherLimsP :
                  Call(src, yy, ms, l) /\ hist' = Append(hist, Entry("call", src, ms, l, NoD))
        \/ \E d \in Ders : Der(d) /\ hist' = Append(hist, Entry("der", "cur", <<>>, 0, d))
-    /\ (Emit /\ n' = MaxCallsP) => PrintT(ToJson([x |-> x, y |-> y', hist |-> hist']))
+       \/ \E d \in Edits : Edit(d) /\ hist' = Append(hist, Entry("edit", "x", <<>>, 0, d))
+    /\ (Emit /\ n' = MaxCallsP) => PrintT(ToJson([x |-> x0, y |-> y', hist |-> hist']))
 
 \* simulation (longer sessions): the caller first DECIDES on a step - its kind, then its arguments - and then takes it: a
 \* random walk does not pay for the outcome of every successor, and derivations / the three kinds of input object are
 \* chosen equally often although there are many more argument combinations for a call
 NextSim ==
     IF pend.a = ""                    \* what kind of step: a derivation, or a call on which object
-    THEN /\ \/ /\ n >= 1 /\ n < MaxCallsP /\ nd < MaxDerP /\ SameRows(cur)
+    THEN /\ \/ /\ n >= 1 /\ n < MaxCallsP /\ nd < MaxDerP /\ SameRows(cur) /\ focus \in {"", "cur"}
                /\ pend' = [NoPend EXCEPT !.a = "der?"]
+            \/ /\ n >= 1 /\ n < MaxCallsP /\ nd < MaxDerP /\ focus \in {"", "x"} /\ NRows(x) >= 1
+               /\ pend' = [NoPend EXCEPT !.a = "edit?"]
             \/ \E src \in Srcs :
-                  /\ n < MaxCallsP /\ (n = 0 => src = "x") /\ (nd > 0 => src = "cur") /\ (src = "y" => YFrames # {})
+                  /\ n < MaxCallsP /\ (n = 0 => src = "x") /\ (focus # "" => src = focus) /\ (src = "y" => YFrames # {})
                   /\ pend' = [NoPend EXCEPT !.a = "call?", !.src = src]
-         /\ UNCHANGED <<x, y, cur, root, own, lastms, lastlim, n, nd, tag, mech, hist>>
-    ELSE IF pend.a \in {"der?", "call?"}     \* with which arguments
+         /\ UNCHANGED <<x0, x, y, cur, root, own, lastms, lastlim, n, nd, focus, tag, mech, hist>>
+    ELSE IF pend.a \in {"der?", "edit?", "call?"}     \* with which arguments
     THEN /\ IF pend.a = "der?"
             THEN \E d \in Ders : DerOK(d) /\ pend' = [a |-> "der", src |-> "cur", y |-> y, ms |-> <<>>, lim |-> 0, d |-> d]
+            ELSE IF pend.a = "edit?"
+            THEN \E d \in Edits : EditOK(d) /\ pend' = [a |-> "edit", src |-> "x", y |-> y, ms |-> <<>>, lim |-> 0, d |-> d]
             ELSE \E yy \in (IF pend.src = "y" THEN YFrames ELSE {y}) : \E ms \in ListsP, l \in LimsP \cup OtherLimsP :
                      CallOK(pend.src, yy, ms, l) /\ pend' = [a |-> "call", src |-> pend.src, y |-> yy, ms |-> ms, lim |-> l, d |-> NoD]
-         /\ UNCHANGED <<x, y, cur, root, own, lastms, lastlim, n, nd, tag, mech, hist>>
+         /\ UNCHANGED <<x0, x, y, cur, root, own, lastms, lastlim, n, nd, focus, tag, mech, hist>>
     ELSE /\ pend' = NoPend
          /\ IF pend.a = "call"
             THEN /\ CallOK(pend.src, pend.y, pend.ms, pend.lim) /\ CallDo(pend.src, pend.y, pend.ms, pend.lim)
                  /\ hist' = Append(hist, Entry("call", pend.src, pend.ms, pend.lim, NoD))
-            ELSE /\ DerOK(pend.d) /\ DerDo(pend.d)
+            ELSE IF pend.a = "der"
+            THEN /\ DerOK(pend.d) /\ DerDo(pend.d)
                  /\ hist' = Append(hist, Entry("der", "cur", <<>>, 0, pend.d))
-         /\ (Emit /\ n' = MaxCallsP) => PrintT(ToJson([x |-> x, y |-> y', hist |-> hist']))
+            ELSE /\ EditOK(pend.d) /\ EditDo(pend.d)
+                 /\ hist' = Append(hist, Entry("edit", "x", <<>>, 0, pend.d))
+         /\ (Emit /\ n' = MaxCallsP) => PrintT(ToJson([x |-> x0, y |-> y', hist |-> hist']))
 
 CellsOf(f) == {f.cols[j][i] : j \in 1..NCols(f), i \in 1..NRows(f)}
-PShape   == \A g \in cur : WellFormed(g) /\ NCols(g) = NCols(x)
-PNoCross == \A g \in cur : CellsOf(g) \subseteq CellsOf(IF root = "x" THEN x ELSE y) \cup {NaN, CONSTV, 0}
+Arrivals == {PutValue(i) : i \in 1..(NRows(x0) + 2 * MaxDerP * MaxCallsP)}
+PShape   == \A g \in cur : WellFormed(g) /\ NCols(g) = NCols(x0)
+PNoCross == \A g \in cur : CellsOf(g) \subseteq CellsOf(IF root = "x" THEN x0 ELSE y) \cup {NaN, CONSTV, 0} \cup Arrivals
+PInputs  == WellFormed(x) /\ x.rows = x0.rows /\ NCols(x) = NCols(x0) /\ (n = 0 => x = x0)
 PIdem    == (n >= 1 /\ nd = 0 /\ lastlim = 0) => \A g \in cur : Fillna(g, lastms, 0) \subseteq cur
 PRefines == mech = cur
 PFew     == (n >= 1 => cur # {}) /\ Cardinality(cur) <= 64
